@@ -278,6 +278,12 @@ def est_cases(draw, min_attrs=2, max_attrs=4, max_size=4, cap=256, min_m=0, max_
         case['zeros'] = draw(zero_specs(attrs, shape, witness, allow_empty_zero))
     if case['solver'] == 'MD' and draw(st.integers(0, 4)) == 0:
         case['stepsize'] = draw(st.sampled_from([0.1, 1.0]))
+    if case.get('units') == 1e-8:
+        # tiny units are not combined with the tiny-noise regime or a caller-chosen constant step: with sigma ~1e-12 the
+        # smoothness constant is 1e24, a constant step of 0.1 is far outside what the caller may choose, and one step
+        # puts the parameters at 1e17, beyond what float64 can resolve
+        case['stepsize'] = None
+        case['meas'] = [dict(m, noise=max(m['noise'], 0.1 * 1e-8)) for m in case['meas']]
     return case
 
 
